@@ -473,6 +473,24 @@ let c11_call pre_ fn a =
       chk fn (int_of_n (vget side (n_sx x))) steps (dot_sx (field "dot" o))
   | _ -> ()
 
+(* C13 / C12: the consuming reads and the element accessors agree with the sequence: the value of an identifier is the
+   marker of its LAST path node, and read_into returns, in order, the value of every identifier of the list *)
+let c13_reads_call pre_ fn a =
+  let last_marker id = (match List.rev id with (_, m) :: _ -> Some m | [] -> None) in
+  (match pre_, fn, a with
+   | "ident", "value", [x; r] ->
+       let id = ident_sx n_sx x in
+       count "C13";
+       if last_marker id <> opt_sx n_sx r then
+         report "C13" (Printf.sprintf "the value of identifier %s is not the element it was created for" (show_ident show_n id))
+   | "glist", "read_into", [g; r] when r <> A "panic" ->
+       let want = List.filter_map last_marker (glist_sx g) in
+       count "C13";
+       if List.map int_of_n want <> List.map int_of_n (nlist_sx r) then
+         report "C13" (Printf.sprintf "read_into returns [%s], the list holds [%s]"
+                         (String.concat "," (List.map show_n (nlist_sx r))) (String.concat "," (List.map show_n want)))
+   | _ -> ())
+
 let on_call (case : string) (cmd : string) (f : string) (a : sx list) =
   cur := (case, cmd);
   let pre_, fn = match String.index_opt f '.' with
@@ -492,6 +510,7 @@ let on_call (case : string) (cmd : string) (f : string) (a : sx list) =
     (if is_map pre_ && pre_ = !ty && (fn = "apply" || fn = "merge") then
        match a with [b; _; r] -> if entry_dropped_with_pending b r then t3_drop := true | _ -> ());
     if not !tainted then (try opctor_call pre_ fn a with Bad _ -> ());
+    (try c13_reads_call pre_ fn a with Bad _ -> ());
     if not !tainted && discipline_ok () then begin generic_call pre_ fn a; ctx_call pre_ fn a end
   with Bad m -> report "DRIVER" ("monitor error: " ^ m)
 
